@@ -488,6 +488,68 @@ pub fn nullable_chain_cfg(rng: &mut Rng) -> (Cfg, Vec<bool>) {
     (Cfg { nn, nt: 4, rules, start: 0 }, force)
 }
 
+/// Large grammars whose sizes cross the thresholds at which index arithmetic, bit sets, string
+/// formatting and sorting of numbered names go wrong (9/10/11, 16, 32, 64, 100, 128, 256 ...):
+/// many terminals, many nonterminals, many rules, many states.
+pub fn big_cfg(rng: &mut Rng, max_states_hint: usize) -> (Cfg, Vec<bool>) {
+    const SIZES: &[usize] = &[9, 10, 11, 10, 15, 16, 17, 16, 31, 32, 33, 32, 63, 64, 65, 64, 99, 100, 101, 120];
+    let mut n = *rng.pick(SIZES);
+    match rng.below(4) {
+        0 => {
+            // many terminals, flat: S -> t_i S | t_i  (n terminals, ~2n+2 states, 2n rules)
+            n = n.min(crate::lr::MAX_T - 1);
+            let mut rules = vec![];
+            for t in 0..n {
+                rules.push(Rule { lhs: 0, rhs: vec![Sym::T(t), Sym::N(0)] });
+                if t % 2 == 0 {
+                    rules.push(Rule { lhs: 0, rhs: vec![Sym::T(t)] });
+                }
+            }
+            (Cfg { nn: 1, nt: n, rules, start: 0 }, vec![true])
+        }
+        1 => {
+            // a chain of n nonterminals: N_i -> a N_{i+1} | b N_{i+1} c ; N_n -> d   (≈ 6n states)
+            let n = n.min(max_states_hint / 6).max(3);
+            let mut rules = vec![];
+            for i in 0..n {
+                rules.push(Rule { lhs: i, rhs: vec![Sym::T(0), Sym::N(i + 1)] });
+                rules.push(Rule { lhs: i, rhs: vec![Sym::T(1), Sym::N(i + 1), Sym::T(2)] });
+            }
+            rules.push(Rule { lhs: n, rhs: vec![Sym::T(3)] });
+            (Cfg { nn: n + 1, nt: 4, rules, start: 0 }, (0..=n).map(|_| rng.chance(0.3)).collect())
+        }
+        2 => {
+            // operator precedence with many levels: E_i -> E_i op_i E_{i+1} | E_{i+1}; E_n -> num | ( E_0 )
+            let n = n.min(24).max(2);
+            let mut rules = vec![];
+            for i in 0..n {
+                rules.push(Rule { lhs: i, rhs: vec![Sym::N(i), Sym::T(i), Sym::N(i + 1)] });
+                rules.push(Rule { lhs: i, rhs: vec![Sym::N(i + 1)] });
+            }
+            rules.push(Rule { lhs: n, rhs: vec![Sym::T(n)] });
+            rules.push(Rule { lhs: n, rhs: vec![Sym::T(n + 1), Sym::N(0), Sym::T(n + 2)] });
+            (Cfg { nn: n + 1, nt: n + 3, rules, start: 0 }, (0..=n).map(|_| rng.chance(0.3)).collect())
+        }
+        _ => {
+            // one enum with many alternatives over many terminals, used in a list: many rules
+            let n = n.min(crate::lr::MAX_T - 2);
+            let mut rules = vec![Rule { lhs: 0, rhs: vec![] }, Rule { lhs: 0, rhs: vec![Sym::N(0), Sym::N(1), Sym::T(n)] }];
+            for t in 0..n {
+                let mut rhs = vec![Sym::T(t)];
+                if t % 3 == 1 {
+                    rhs.push(Sym::T((t + 1) % n));
+                }
+                if t % 3 == 2 {
+                    rhs.push(Sym::N(1));
+                    rhs.push(Sym::T(t));
+                }
+                rules.push(Rule { lhs: 1, rhs });
+            }
+            (Cfg { nn: 2, nt: n + 1, rules, start: 0 }, vec![true, true])
+        }
+    }
+}
+
 /// Relabel nonterminals and terminals by random permutations: the same grammar with a different
 /// declaration order of nonterminals (rules stay grouped per nonterminal, alternatives keep their
 /// relative order) and of terminals.
@@ -566,6 +628,7 @@ pub enum Source {
     SharedContexts,
     Nested,
     NullableChain,
+    Big,
     Enumerated,
 }
 
@@ -581,6 +644,7 @@ impl Source {
             Source::SharedContexts => "shared-contexts",
             Source::Nested => "nested-recursion",
             Source::NullableChain => "nullable-chain",
+            Source::Big => "big (sizes across 10/16/32/64/100/128)",
             Source::Enumerated => "enumerated",
         }
     }
@@ -601,6 +665,10 @@ pub fn grammar_for_case(rng: &mut Rng, index: u64) -> (Source, Cfg, Vec<bool>) {
 }
 
 fn grammar_for_case_inner(rng: &mut Rng) -> (Source, Cfg, Vec<bool>) {
+    if rng.below(160) == 0 {
+        let (c, f) = big_cfg(rng, 400);
+        return (Source::Big, c, f);
+    }
     match rng.below(26) {
         24..=25 => {
             let (c, f) = nullable_chain_cfg(rng);
